@@ -222,7 +222,10 @@ int main(int argc, char **argv) {
         long fx[4];
         fx[0] = (long)ref; fx[1] = REFSZ; fx[2] = (long)fmt;
         errno = 0;
-        int refret = gcall((void *)t_ref, 3, fx, a, na);
+        int refret = -2;            /* -2: glibc itself faulted on this format (e.g. %n through an integer argument) */
+        in_call = 1;
+        if (sigsetjmp(jb, 1) == 0) refret = gcall((void *)t_ref, 3, fx, a, na);
+        in_call = 0;
         size_t reflen = refret < 0 ? 0 : (size_t)refret < REFSZ ? (size_t)refret : REFSZ - 1;
         /* the call */
         unsigned char *dest = arena + ARENA_PAGES * PAGE - dmax;
